@@ -701,4 +701,140 @@ theorem igmp_v2_parse (h : Igmp) (a : Nat) (hf : h.Fits2 a) :
   cases h
   simp_all
 
+/-! ## RIP -/
+
+structure RipEntry.Fits (e : RipEntry) : Prop where
+  af : e.af < 65536
+  tag : e.tag < 65536
+  ip : e.ip < 4294967296
+  mask : e.mask < 4294967296
+  nh : e.nh < 4294967296
+  metricLo : -2147483648 ≤ e.metric          -- struct 'i' (metrics ≥ 2^31 cannot be packed: finding D50)
+  metricHi : e.metric < 2147483648
+
+def ripEntryBytes (e : RipEntry) : Bytes :=
+  be16 e.af ++ (be16 e.tag ++ (beEnc 4 e.ip ++ (beEnc 4 e.mask ++ (beEnc 4 e.nh ++ beEnc 4 (e.metric % 4294967296).toNat))))
+
+def ripEntriesBytes : List RipEntry → Bytes
+  | [] => []
+  | e :: r => ripEntryBytes e ++ ripEntriesBytes r
+
+theorem ripEntryBytes_length (e : RipEntry) : (ripEntryBytes e).length = 20 := by simp [ripEntryBytes]
+
+theorem ripEntriesBytes_length (es : List RipEntry) : (ripEntriesBytes es).length = 20 * es.length := by
+  induction es with
+  | nil => rfl
+  | cons e r ih => simp [ripEntriesBytes, ripEntryBytes_length, ih]; omega
+
+theorem ripEntryPack_ok (e : RipEntry) (hf : e.Fits) : ripEntryPack e = .ok (ripEntryBytes e) := by
+  have h1 := hf.metricLo; have h2 := hf.metricHi
+  simp [ripEntryPack, packI32, pk, encode, ripEntryBytes, be16, hf.af, hf.tag, hf.ip, hf.mask, hf.nh, h1, h2, bind,
+    Except.bind, pure, Except.pure]
+
+theorem ripEntriesPack_ok (es : List RipEntry) (hf : ∀ e ∈ es, e.Fits) : ripEntriesPack es = .ok (ripEntriesBytes es) := by
+  induction es with
+  | nil => rfl
+  | cons e r ih =>
+    have ih' := ih (fun q hq => hf q (by simp [hq]))
+    simp [ripEntriesPack, ripEntryPack_ok e (hf e (by simp)), ih', ripEntriesBytes, bind, Except.bind, pure, Except.pure]
+
+theorem decI32_enc (m : Int) (h1 : -2147483648 ≤ m) (h2 : m < 2147483648) :
+    decI32 (beEnc 4 (m % 4294967296).toNat) = m := by
+  have hlt : (m % 4294967296).toNat < 256 ^ 4 := by
+    have : (256 : Nat) ^ 4 = 4294967296 := by decide
+    rw [this]; omega
+  unfold decI32
+  rw [beDec_beEnc 4 _ hlt]
+  simp only []
+  split <;> omega
+
+theorem ripEntry_decode (e : RipEntry) (hf : e.Fits) (rest : Bytes) :
+    let b := ripEntryBytes e ++ rest
+    (⟨beDec (b.take 2), beDec (sl b 2 4), beDec (sl b 4 8), beDec (sl b 8 12), beDec (sl b 12 16), decI32 (sl b 16 20)⟩ : RipEntry)
+      = e ∧ b.drop 20 = rest := by
+  have t1 : (ripEntryBytes e ++ rest).take 2 = be16 e.af := by
+    unfold ripEntryBytes; rw [List.append_assoc]; exact take_left _ _ 2 (by simp)
+  have t2 : sl (ripEntryBytes e ++ rest) 2 4 = be16 e.tag := by
+    unfold ripEntryBytes; simp only [List.append_assoc]
+    exact sl_mid (be16 e.af) (be16 e.tag) _ 2 4 (by simp) (by simp)
+  have t3 : sl (ripEntryBytes e ++ rest) 4 8 = beEnc 4 e.ip := by
+    unfold ripEntryBytes; simp only [List.append_assoc]
+    rw [← List.append_assoc (be16 _) (be16 _)]
+    exact sl_mid (be16 e.af ++ be16 e.tag) (beEnc 4 e.ip) _ 4 8 (by simp) (by simp)
+  have t4 : sl (ripEntryBytes e ++ rest) 8 12 = beEnc 4 e.mask := by
+    unfold ripEntryBytes; simp only [List.append_assoc]
+    rw [← List.append_assoc (be16 _) (be16 _), ← List.append_assoc (be16 _ ++ be16 _) (beEnc 4 _)]
+    exact sl_mid ((be16 e.af ++ be16 e.tag) ++ beEnc 4 e.ip) (beEnc 4 e.mask) _ 8 12 (by simp) (by simp)
+  have t5 : sl (ripEntryBytes e ++ rest) 12 16 = beEnc 4 e.nh := by
+    unfold ripEntryBytes; simp only [List.append_assoc]
+    rw [← List.append_assoc (be16 _) (be16 _), ← List.append_assoc (be16 _ ++ be16 _) (beEnc 4 _),
+      ← List.append_assoc ((be16 _ ++ be16 _) ++ beEnc 4 _) (beEnc 4 _)]
+    exact sl_mid (((be16 e.af ++ be16 e.tag) ++ beEnc 4 e.ip) ++ beEnc 4 e.mask) (beEnc 4 e.nh) _ 12 16 (by simp) (by simp)
+  have t6 : sl (ripEntryBytes e ++ rest) 16 20 = beEnc 4 (e.metric % 4294967296).toNat := by
+    unfold ripEntryBytes; simp only [List.append_assoc]
+    rw [← List.append_assoc (be16 _) (be16 _), ← List.append_assoc (be16 _ ++ be16 _) (beEnc 4 _),
+      ← List.append_assoc ((be16 _ ++ be16 _) ++ beEnc 4 _) (beEnc 4 _),
+      ← List.append_assoc (((be16 _ ++ be16 _) ++ beEnc 4 _) ++ beEnc 4 _) (beEnc 4 _)]
+    exact sl_mid ((((be16 e.af ++ be16 e.tag) ++ beEnc 4 e.ip) ++ beEnc 4 e.mask) ++ beEnc 4 e.nh) _ _ 16 20
+      (by simp) (by simp)
+  refine ⟨?_, drop_left _ _ 20 (ripEntryBytes_length e).symm⟩
+  simp only [t1, t2, t3, t4, t5, t6, be16]
+  rw [beDec_beEnc 2 _ (by simpa using hf.af), beDec_beEnc 2 _ (by simpa using hf.tag), beDec_beEnc 4 _ (by simpa using hf.ip),
+    beDec_beEnc 4 _ (by simpa using hf.mask), beDec_beEnc 4 _ (by simpa using hf.nh), decI32_enc _ hf.metricLo hf.metricHi]
+
+theorem ripEntriesParse_rt (es : List RipEntry) (hf : ∀ e ∈ es, e.Fits) :
+    ∀ fuel, es.length < fuel → ripEntriesParse fuel (ripEntriesBytes es) = es := by
+  induction es with
+  | nil => intro fuel hfu; cases fuel with
+    | zero => simp at hfu
+    | succ f => simp [ripEntriesParse, ripEntriesBytes]
+  | cons e r ih =>
+    intro fuel hfu
+    cases fuel with
+    | zero => simp at hfu
+    | succ f =>
+      have hl : ¬ ((ripEntryBytes e ++ ripEntriesBytes r).length < 20) := by
+        rw [List.length_append, ripEntryBytes_length]; omega
+      obtain ⟨h1, h2⟩ := ripEntry_decode e (hf e (by simp)) (ripEntriesBytes r)
+      simp only [ripEntriesBytes, ripEntriesParse, hl, if_false]
+      rw [h1, h2, ih (fun q hq => hf q (by simp [hq])) f (by simp at hfu; omega)]
+
+structure Rip.Fits (h : Rip) : Prop where
+  command : h.command < 256
+  version : h.version < 256
+  entries : ∀ e ∈ h.entries, e.Fits
+  nonempty : h.entries ≠ []                 -- `rip.parse` refuses messages shorter than one entry (MIN_LEN = 24)
+
+def ripBytes (h : Rip) : Bytes := beEnc 1 h.command ++ (beEnc 1 h.version ++ be16 0) ++ ripEntriesBytes h.entries
+
+theorem ripHdr_ok (h : Rip) (hf : h.Fits) : ripHdr h = .ok (ripBytes h) := by
+  simp [ripHdr, pk, encode, ripEntriesPack_ok h.entries hf.entries, ripBytes, be16, hf.command, hf.version, bind,
+    Except.bind, pure, Except.pure]
+
+/-- the message is 4 + 20·n bytes and `rip(raw = hdr)` returns every entry (addresses, tag, signed metric) -/
+theorem rip_parse (h : Rip) (hf : h.Fits) :
+    (ripBytes h).length = 4 + 20 * h.entries.length ∧ ripParse (ripBytes h) = .rip h := by
+  have hlen : (ripBytes h).length = 4 + 20 * h.entries.length := by
+    simp [ripBytes, ripEntriesBytes_length]; omega
+  refine ⟨hlen, ?_⟩
+  have hne : 1 ≤ h.entries.length := by
+    cases he : h.entries with
+    | nil => exact absurd he hf.nonempty
+    | cons _ _ => simp
+  have hfit : fits [.uint 1, .uint 1, .uint 2] [.num h.command, .num h.version, .num 0] := by
+    simp [fits, hf.command, hf.version]
+  have he : encode [.uint 1, .uint 1, .uint 2] [.num h.command, .num h.version, .num 0]
+      = some (beEnc 1 h.command ++ (beEnc 1 h.version ++ be16 0)) := by
+    simp [encode, be16, hf.command, hf.version]
+  obtain ⟨hu, hd, hl⟩ := unpack_take _ _ _ (ripEntriesBytes h.entries) he hfit
+  have hsz : size [Field.uint 1, .uint 1, .uint 2] = 4 := rfl
+  rw [hsz] at hu hd hl
+  unfold ripParse
+  rw [hlen]
+  have c0 : ¬ (4 + 20 * h.entries.length < 24) := by omega
+  unfold ripBytes
+  simp only [c0, if_false, hu, hd]
+  rw [ripEntriesParse_rt h.entries hf.entries _ (by omega)]
+  simp
+
 end Pox.Packet
